@@ -463,17 +463,22 @@ def namespace_reader(repo, chk):
         if vt != f1 or (map_name and st['target'].id != map_name):
             problems.setdefault('C16.6a', (st['node'], 'the map must store field 0 -> field 1 of the comma-split line for every accepted line'))
         # two-field vs three-field decision of this path
-        two_forms = [expected_term(m, "len(P) == 2 and '_' not in P[0]", {'P': P}), expected_term(m, 'len(P) == 2', {'P': P})]
-        two = None
+        a_len = expected_term(m, 'len(P) == 2', {'P': P})
+        a_us = expected_term(m, "'_' not in P[0]", {'P': P})
+        cn = Canon(m, Scope(None))
+        dec = {}
         for t, v in res.assumed:
             tt = term_of(fn, t, roles, inline=False)
-            if tt in two_forms:
-                two = v
-            elif tt[0] == 'or' or tt[0] == 'not' or tt[0] == 'cmp':
-                # negated spellings: len(P) != 2 or '_' in P[0]
-                neg = Canon(m, Scope(None))._not(tt)
-                if neg in two_forms:
-                    two = not v
+            for nm, atom in (('len', a_len), ('us', a_us)):
+                if tt == atom:
+                    dec[nm] = v
+                elif cn._not(tt) == atom:
+                    dec[nm] = not v
+        two = None
+        if dec.get('len') is False or dec.get('us') is False:
+            two = False
+        elif dec.get('len') is True:
+            two = True
         # the declared type on this path
         type_terms = []
         for t, v in res.assumed:
